@@ -277,6 +277,9 @@ class World:
                     out["pdf"] = _try(lambda: obj.pdf(val_for("x", obj.dim, 1)))
                 return out
             return ("val", canon(_try(f)))
+        if kind == "pdf":       # logpdf/pdf called directly, nothing else read first (first evaluation of a fresh copy)
+            return ("val", canon(_try(lambda: [obj.logpdf(val_for(op["name"], self.dims[op["name"]], op["k"])),
+                                               obj.pdf(val_for(op["name"], self.dims[op["name"]], op["k"]))])))
         if kind == "gibbs":
             return ("val", canon(_try(lambda: self._gibbs(obj, op))))
         if kind == "mh":
@@ -467,6 +470,8 @@ def plan_sequence(cuqi, rng, graph, variant, nops, force=None):
                 choices = ["cond", "cond", "cond", "logd", "grad", "sample", "misc", "condpos"]
                 if isinstance(obj, Dist) and not isinstance(obj, JD):
                     choices += ["tolik"]
+                    if len(names) == 1 and hasattr(obj, "logpdf"):
+                        choices += ["pdf", "pdf"]
                 if isinstance(obj, JD) and set(names) == {"d", "l", "x"} and type(obj) is JD:
                     choices += ["gibbs", "gibbs"]
                 if isinstance(obj, Dist) and len(names) == 1 and not _try(lambda: obj.is_cond):
@@ -505,6 +510,8 @@ def plan_sequence(cuqi, rng, graph, variant, nops, force=None):
                     op = {"op": "sample", "i": i, "N": rng.choice([1, 2]), "seed": rng.randrange(100)}
                 elif kind == "misc":
                     op = {"op": "misc", "i": i, "cdf": False, "pdf": rng.random() < 0.5}
+                elif kind == "pdf":
+                    op = {"op": "pdf", "i": i, "name": names[0], "k": k}
                 elif kind == "tolik":
                     nm = _try(lambda: obj.name)
                     if not isinstance(nm, str) or nm not in P.dims:
@@ -918,7 +925,7 @@ def model_step_expr(st, plan, W, S, hints):
     return None
 
 
-EVAL_OPS = ("logd", "grad", "sample", "misc", "gibbs", "mh", "fp")
+EVAL_OPS = ("logd", "grad", "sample", "misc", "pdf", "gibbs", "mh", "fp")
 
 
 def frame_expr(st, inline=False):
@@ -1201,11 +1208,12 @@ def fixed_plans(cuqi):
     # Lognormal with both parameters conditional: first evaluation through pdf, before and after other evaluations
     P.append({"graph": "lognormal", "variant": 0, "n0": 5, "ops": [
         {"op": "cond", "i": 4, "names": ["z", "w"], "k": 0, "makes": True},      # 5
-        {"op": "misc", "i": 5, "cdf": False, "pdf": True, "makes": False},
+        {"op": "pdf", "i": 5, "name": "L2", "k": 0, "makes": False},
+        {"op": "pdf", "i": 5, "name": "L2", "k": 0, "makes": False},
         {"op": "logd", "i": 5, "names": ["L2"], "k": 0, "makes": False},
         {"op": "cond", "i": 4, "names": ["z", "w"], "k": 1, "makes": True},      # 6
         {"op": "logd", "i": 6, "names": ["L2"], "k": 0, "makes": False},
-        {"op": "misc", "i": 6, "cdf": False, "pdf": True, "makes": False},
+        {"op": "pdf", "i": 6, "name": "L2", "k": 0, "makes": False},
     ]})
     # unnamed original outside any joint: conditioned before its name was ever looked up, then evaluated at its own parameter
     P.append({"graph": "unnamed", "variant": 0, "n0": 4, "ops": [
